@@ -72,6 +72,10 @@ type FS struct {
 	// SyncMarks[i] = len(Journal) when the i-th fsync was issued, SyncPaths[i] its file (symbolic engine only)
 	SyncMarks []int
 	SyncPaths []string
+
+	tr          *traceState
+	marks       map[string]int
+	preexisting map[string]bool
 }
 
 var ErrInjected = errors.New("injected I/O failure")
@@ -751,13 +755,27 @@ func (f *FS) NoteWrite(p string, off int64, b []byte) {
 
 // NativeCrashImage materialises the first k journalled operations in a fresh temporary directory
 // (paths are re-rooted from f.Root to the new root) and returns a file system rooted there.
-func (f *FS) NativeCrashImage(k int, dirs []string) *FS {
+func (f *FS) NativeCrashImage(k int, base *FS, dirs []string) *FS {
 	d, err := os.MkdirTemp("", "verif-img-")
 	if err != nil {
 		panic(err)
 	}
 	img := &FS{Root: d, FailWriteAt: -1}
 	reroot := func(p string) string { return filepath.Join(d, strings.TrimPrefix(p, f.Root)) }
+	if base != nil {
+		filepath.Walk(base.Root, func(p string, info os.FileInfo, err error) error {
+			if err != nil {
+				return nil
+			}
+			t := filepath.Join(d, strings.TrimPrefix(p, base.Root))
+			if info.IsDir() {
+				os.MkdirAll(t, 0o777)
+			} else if b, err := os.ReadFile(p); err == nil {
+				os.WriteFile(t, b, 0o666)
+			}
+			return nil
+		})
+	}
 	for _, dir := range dirs {
 		os.MkdirAll(reroot(dir), 0o777)
 	}
@@ -796,10 +814,19 @@ func (f *FS) Image(k int, base *FS, dirs []string) *FS {
 		img.Activate()
 		return img
 	}
-	return f.NativeCrashImage(k, dirs)
+	return f.NativeCrashImage(k, base, dirs)
 }
 
 // Rebase maps a path of f to the same relative path in img.
 func (f *FS) Rebase(img *FS, p string) string {
 	return filepath.Join(img.Root, strings.TrimPrefix(p, f.Root))
+}
+
+// Base captures the tree as it is now, to replay journal prefixes on (symbolic: snapshot, native: copy).
+func (f *FS) Base() *FS {
+	f.NotePreexisting()
+	if f.sym {
+		return f.Snapshot()
+	}
+	return f.CopyTree()
 }
